@@ -112,6 +112,26 @@ CHECKS = {
         'exactly as it found it, the decidable form of "permanently").',
    design='4/C09', technique='symbolic execution of the real async stack from MIR under an explicit-state scheduler with partial-order reduction; SMT decides data; native replay over a fake node',
    note=TRUST + '; bounds: 1 crash or 1 write fault (thorough: both), 2 retries, 1 part.'),
+ 'C10': dict(category='model_checking',
+   text='The real handle_htlc / check_htlc / extract_trampoline_info / get_tu64 / TLV code runs with a fully symbolic invoice oracle (signature validity, hash equal or different, amount present or absent, '
+        'two route hints of 2 and 1 hops with symbolic node ids, symbolic self-route-hint setting) and an amount field that is absent or 0,1,8,9 (quick) / 0..9 symbolic bytes: the HTLC is held as a trampoline payment only if '
+        'the signature verifies and the hashes are equal; the amount is the invoice amount (a well-formed amount field must equal it) or else the big-endian value of a 0..8-byte field; payee and bolt11 come from the invoice; '
+        'the local node as last hop of any hint with the setting off yields an immediate failure and never a held HTLC.',
+   design='4/C10', technique='symbolic execution of the real async stack from MIR under an explicit-state scheduler with partial-order reduction; SMT decides data; native replay over a fake node',
+   note=TRUST + '; bech32 / SHA-256 / secp256k1 are an uninterpreted, functionally consistent oracle.'),
+ 'C17': dict(category='model_checking',
+   text='Clause (a) only: the real MultiLineCodec (built through its own Default impl, so hidden decoder state is included) is driven like FramedRead drives it on every stream of up to 7 (quick) / 9 (thorough) bytes '
+        'over an alphabet that contains everything the decoder distinguishes, under every partition into up to 3 / 4 chunks (including splits inside the separator and inside a multi-byte character): the frames, '
+        'the leftover and the error outcome equal one-shot reference decoding; a None result leaves the buffer untouched; encode appends exactly line + two newlines. '
+        'Clauses (b) one reply per request id and (c) non-interleaved writes are NOT decided (see DESIGN.md section 6): the driver loop is not encoded.',
+   design='4/C17', technique='symbolic execution of rustc MIR over symbolic byte streams and chunkings, SMT (z3), exhaustive within the byte bound, native replay',
+   note=TRUST + '; tokio-util FramedRead contract; bytes contracts.'),
+ 'C19': dict(category='proof',
+   text='The lowered coroutine of async main is executed with the six integer options as symbolic i64 values and the flags as symbolic booleans (get_info, block watcher start and e-mail setup through their real code against the node model): '
+        'the init acknowledgement (cp.start) is reached iff every integer is in the range of its target type and policy delta > safety delta; when reached, the HtlcManagerParams and the provider hold, term for term, '
+        'the configured values (retry_for = min(payment timeout, 65535), allow_self_route_hints = not flag). No bound on the values. Counterexamples are replayed by starting the real plugin binary against a fake lightningd.',
+   design='4/C19', technique='symbolic execution of the async main state machine from MIR; SMT over all i64 option values; native replay with the real binary',
+   note=TRUST + '; ConfiguredPlugin::option is a contract (returns the configured value): the option parsing of cln_plugin is outside.'),
 }
 
 NOT_YET = 'harness not built yet in this session (see DESIGN.md build order); will be claimed once its check exists'
